@@ -58,6 +58,10 @@ type Case struct {
 	// The generators never set it (the statement's record table is [][]string); it exists so that a probe of that
 	// neighbouring type can be replayed.
 	NamedRecord bool `json:"named_record,omitempty"`
+	// Used: the consumer / producer instance has already handled a small well-formed input (one record) before the
+	// call that is judged, and for textual destinations two more Consume calls follow before the destination is read
+	// again: an instance is a value built once from its options, earlier and later calls must not show.
+	Used bool `json:"used,omitempty"`
 }
 
 // Kinds ---------------------------------------------------------------------------------------------
@@ -578,8 +582,17 @@ func checkConsume(c Case, kind int) *kit.Violation {
 		}
 	}
 
+	consumer := runtime.CSVConsumer(o.list()...)
+	if c.Used {
+		if v := kit.Guard("CSVConsumer.Consume (earlier call on the same consumer)", func() {
+			var earlier [][]string
+			_ = consumer.Consume(strings.NewReader("w\n"), &earlier)
+		}); v != nil {
+			return v
+		}
+	}
 	if v := kit.Guard("CSVConsumer.Consume ["+what+"]", func() {
-		err = runtime.CSVConsumer(o.list()...).Consume(reader, dest)
+		err = consumer.Consume(reader, dest)
 	}); v != nil {
 		return v
 	}
@@ -595,7 +608,26 @@ func checkConsume(c Case, kind int) *kit.Violation {
 	}
 
 	if !recordLevel(kind) {
-		return judgeText(what, out(), want, o)
+		if v := judgeText(what, out(), want, o); v != nil {
+			return v
+		}
+		if c.Used && out != nil {
+			// what was stored must survive later calls of the codec into other destinations
+			snapshot := append([]byte(nil), out()...)
+			filler := strings.Repeat("zz,yy,xx\n", len(snapshot)/9+1)
+			if v := kit.Guard("CSVConsumer.Consume (later calls)", func() {
+				var b []byte
+				var s2 string
+				_ = consumer.Consume(strings.NewReader(filler), &b)
+				_ = runtime.CSVConsumer().Consume(strings.NewReader(filler), &s2)
+			}); v != nil {
+				return v
+			}
+			if now := out(); !bytes.Equal(now, snapshot) {
+				return kit.Failf("%s: ALIASED: the destination held %q; after two later Consume calls into other destinations it holds %q", what, snapshot, now)
+			}
+		}
+		return nil
 	}
 	got := recs()
 	if !same(got, want) {
@@ -713,9 +745,17 @@ func checkProduce(c Case, kind int) ([]byte, *kit.Violation) {
 		writer = onlyWriter{snk} // hides Close
 	}
 	var err error
+	producer := runtime.CSVProducer(o.list()...)
+	if c.Used {
+		if v := kit.Guard("CSVProducer.Produce (earlier call on the same producer)", func() {
+			_ = producer.Produce(io.Discard, [][]string{{"w"}})
+		}); v != nil {
+			return nil, v
+		}
+	}
 	call := func() *kit.Violation {
 		return kit.Guard("CSVProducer.Produce ["+what+"]", func() {
-			err = runtime.CSVProducer(o.list()...).Produce(writer, data)
+			err = producer.Produce(writer, data)
 		})
 	}
 	if kind == kFrom {
